@@ -24,7 +24,7 @@ def _alarm(signum, frame):
     raise _Timeout()
 
 
-def guarded(fn, secs=10):
+def guarded(fn, secs=30):
     signal.signal(signal.SIGALRM, _alarm)
     signal.setitimer(signal.ITIMER_REAL, secs)
     try:
